@@ -418,6 +418,20 @@ def c07_cases():
     hm = dict(ops={}, nodes={}, edges=[edge("c1/p2/opB/v", "c2/p1/opB/u", 0.8)], circuits={"c1": inner, "c2": inner})
     out.append(("U13-hierarchy-single", dict(hierarchy=1), hm, [["update_var", "c2/p1/opB/k", 3.0]]))
     out.append(("U14-hierarchy-array", dict(hierarchy=1), hm, [["update_var", "all/all/opB/k", [1.0, 2.0, 3.0, 4.0]]]))
+    # node_values dictionaries: a wide scalar entry FIRST, narrower entries after it (dict order is the order of application)
+    out.append(("U15-node-values-all-then-single", dict(), m, [["node_values", "all/opA/k", 3.0], ["node_values", "A/opA/tau", 0.7]]))
+    out.append(("U16-node-values-all-then-array", dict(), m, [["node_values", "all/opA/k", 3.0], ["node_values", "all/opA/x", [0.1, 0.2, 0.3]]]))
+    out.append(("U17-node-values-single-then-all", dict(), m, [["node_values", "A2/opA/tau", 0.7], ["node_values", "all/opA/k", 3.0]]))
+    out.append(("U18-node-values-hierarchy", dict(hierarchy=1), hm, [["node_values", "all/all/opB/k", 0.3], ["node_values", "c2/p1/opB/v", 0.9],
+                                                                     ["node_values", "c1/p2/opB/tau", 7.0]]))
+    # DISTINCT NodeTemplate objects that were derived from one another / built from one overrides dictionary
+    nodes3 = {"A": dict(ops=["opA"], over={"opA/k": 4.0}), "A2": dict(ops=["opA"], over={"opA/k": 4.0}), "A3": dict(ops=["opA"], over={"opA/k": 4.0})}
+    m3 = model([a], nodes3, es)
+    for share in ("derived", "common-dict"):
+        out.append((f"U19-{share}-single-const", dict(share=share), m3, [["update_var", "A/opA/k", 9.0], ["update_var", "A/opA/x", 0.9]]))
+        out.append((f"U20-{share}-array", dict(share=share), m3, [["update_var", "all/opA/tau", [1.0, 2.0, 3.0]]]))
+        out.append((f"U21-{share}-last-node-initial-value", dict(share=share), m3, [["update_var", "A3/opA/x", 0.2]]))
+        out.append((f"U22-{share}-node-values", dict(share=share), m3, [["node_values", "A2/opA/k", 7.0]]))
     return out
 
 
@@ -502,6 +516,29 @@ def c16_cases(seed=0):
         ps = dict(ops=ops, pops={"a": dict(ops=["op"], n=3, params={"op/tau": het(3, 1.0, 3.0), "op/r": het(3, -0.5, 0.5)})},
                   conns=[dict(src="a/op/r", tgt="a/op/r_in", W=W(3, 3), d=d, s=s_)])
         out.append((f"P6-gamma-delay-{d}-{s_}", dict(delay=d, spread=s_, dt=0.01), ps))
+    # coupling edge templates, evaluated per (target, source) pair
+    sin_e = dict(name="cs", eqs=[["s", "alg", ["call", "sin", ["-", V("x_pre"), V("x_post")]]]],
+                 vars={"s": ["output", 0.0], "x_pre": ["input", 0.0], "x_post": ["input", 0.0]})
+    tanh_e = dict(name="ct", eqs=[["s", "alg", ["*", N(2.0), ["call", "tanh", V("x_pre")]]]], vars={"s": ["output", 0.0], "x_pre": ["input", 0.0]})
+    sinp_e = dict(name="cp", eqs=[["s", "alg", ["call", "sin", V("x_pre")]]], vars={"s": ["output", 0.0], "x_pre": ["input", 0.0]})
+    ps = dict(ops=ops, pops={"a": dict(ops=["op"], n=3, params={"op/tau": het(3, 1.0, 3.0), "op/r": het(3, -0.5, 0.5)})},
+              conns=[dict(src="a/op/r", tgt="a/op/r_in", W=W(3, 3, 0.2), edge=dict(sin_e, map={"x_pre": "source", "x_post": "a/op/r"}))])
+    out.append(("P7-coupling-edge-pre-and-post", dict(coupling=True), ps))
+    ps = dict(ops=ops, pops={"a": dict(ops=["op"], n=3, params={"op/tau": het(3, 1.0, 3.0), "op/r": het(3, -0.5, 0.5)}),
+                             "b": dict(ops=["tg"], n=2, params={"tg/v": het(2, -0.5, 0.5)})},
+              conns=[dict(src="b/tg/v", tgt="a/op/r_in", W=W(3, 2, 0.0), edge=dict(tanh_e, map={"x_pre": "source"})),
+                     dict(src="a/op/r", tgt="b/tg/u", W=W(2, 3, 0.0), edge=dict(sinp_e, map={"x_pre": "source"}))])
+    out.append(("P8-two-different-coupling-edges", dict(coupling=True), ps))
+    # several Connectivity objects (from different source populations) converging on one target variable: scalar + matrix
+    ps = dict(ops=ops, pops={"a": dict(ops=["op"], n=3, params={"op/tau": het(3, 1.0, 3.0), "op/r": het(3, -0.5, 0.5)}),
+                             "b": dict(ops=["tg"], n=2, params={"tg/v": het(2, -0.5, 0.5)})},
+              conns=[dict(src="a/op/r", tgt="a/op/r_in", W=-0.6), dict(src="b/tg/v", tgt="a/op/r_in", W=W(3, 2, 0.0)),
+                     dict(src="a/op/r", tgt="b/tg/u", W=1.0), dict(src="b/tg/v", tgt="b/tg/u", W=W(2, 2, 0.0))])
+    out.append(("P9-scalar-and-matrix-onto-one-target", dict(scalar=True, converge=True), ps))
+    ps = dict(ops=ops, pops={"a": dict(ops=["op"], n=3, params={"op/r": het(3, -0.5, 0.5)}),
+                             "b": dict(ops=["tg"], n=1, params={"tg/v": 0.3})},
+              conns=[dict(src="a/op/r", tgt="b/tg/u", W=[[0.5, -1.0, 0.25]]), dict(src="b/tg/v", tgt="a/op/r_in", W=[[0.4], [0.0], [-0.7]])])
+    out.append(("P10-single-unit-target", dict(n1_target=True), ps))
     return out
 
 
@@ -539,6 +576,18 @@ def dde_models():
                 model([pop, tg], {"p1": dict(ops=["op"]), "p2": dict(ops=["op"], over={"op/tau": 3.0}), "t1": dict(ops=["tg"]),
                                   "t2": dict(ops=["tg"], over={"tg/tau": 2.0})},
                       [edge("p1/op/r", "t1/tg/u", 1.0, 0.3), edge("p1/op/r", "t2/tg/u", 2.0, 0.7), edge("p2/op/r", "p1/op/r_in", -0.5, 0.5),
+                       edge("t1/tg/v", "p2/op/r_in", 0.8)])))
+    # a delayed edge and an UNDELAYED sibling edge leaving the same source variable (the undelayed one must read the present)
+    out.append(("H9-delayed-and-undelayed-siblings", dict(edges=True),
+                model([pop, tg], {"p1": dict(ops=["op"]), "p2": dict(ops=["op"], over={"op/tau": 3.0}), "t1": dict(ops=["tg"]),
+                                  "t2": dict(ops=["tg"], over={"tg/tau": 2.0})},
+                      [edge("p1/op/r", "t1/tg/u", 1.0, 0.3), edge("p1/op/r", "t2/tg/u", 2.0), edge("p2/op/r", "p1/op/r_in", -0.5, 0.5),
+                       edge("t1/tg/v", "p2/op/r_in", 0.8)])))
+    # a sibling whose delay is shorter than the step size handed to the compiler (adaptive solvers keep the true delay)
+    out.append(("H10-sibling-delay-below-step-size", dict(edges=True),
+                model([pop, tg], {"p1": dict(ops=["op"]), "p2": dict(ops=["op"], over={"op/tau": 3.0}), "t1": dict(ops=["tg"]),
+                                  "t2": dict(ops=["tg"], over={"tg/tau": 2.0})},
+                      [edge("p1/op/r", "t1/tg/u", 1.0, 0.3), edge("p1/op/r", "t2/tg/u", 2.0, 0.004), edge("p2/op/r", "p1/op/r_in", -0.5, 0.5),
                        edge("t1/tg/v", "p2/op/r_in", 0.8)])))
     # negative coefficient in front of a delayed term inside a sum (printing of ` - 2.0*past(...)`)
     d7 = dict(name="d7", eqs=[["x", "de", ["-", V("z"), V("x")]],
@@ -583,6 +632,9 @@ def c12_models():
     for t, f, m in dde_models():
         if t.startswith("H7"):
             continue        # cannot be compiled at all on the pinned tree (known finding KF-C10-negative-coefficient-delayed-term)
+        if t.startswith(("H9", "H10")):
+            continue        # fixed-step compilation of these uses a ring buffer that is read one call late (KF-C09): the compiled
+            #                 function is stateful between calls, so finite differences of it are not a derivative
         out.append((t, dict(f, dde=True), m))
     return out
 
